@@ -80,6 +80,9 @@ func runC07(p *Prog, r *Report) {
 	if want("C07.7") {
 		ruleFileNumRecycling(p, r, "C07.7")
 	}
+	if want("C07.10") {
+		ruleReleaseOnce(p, r, "C07.10")
+	}
 	if want("C07.9") {
 		ruleSpawnedIdSettled(p, r, "C07.9")
 	}
